@@ -4,6 +4,7 @@ import (
 	"fmt"
 	"go/token"
 	"go/types"
+	"sort"
 	"strings"
 
 	"golang.org/x/tools/go/ssa"
@@ -113,10 +114,18 @@ func refProjection(fn *ssa.Function, v ssa.Value) (int, int64, bool) {
 		return 0, 0, false
 	}
 	// base: &sortedRefs[param] or load of it
-	for i := 0; i < 4; i++ {
+	for i := 0; i < 6; i++ {
 		switch y := base.(type) {
 		case *ssa.UnOp:
 			base = y.X
+			continue
+		case *ssa.Alloc:
+			// a := sortedRefs[x] – a local copy of the entry
+			sts := storesTo(y)
+			if len(sts) != 1 {
+				return 0, 0, false
+			}
+			base = sts[0].Val
 			continue
 		case *ssa.IndexAddr:
 			f, _ := loadedField(y.X)
@@ -145,100 +154,64 @@ func c02R1(e *Engine) {
 	if !e.anchor("R1", "core.index.lessKey/startSearch", lk == nil || ss == nil) {
 		return
 	}
-	// collect the comparisons in order of dominance
-	type cmp struct {
-		op     token.Token
-		px, py int
-		kx, ky int64
-		in     *ssa.BinOp
-	}
-	var cmps []cmp
-	bad := ""
-	instrs(lk, func(in ssa.Instruction) {
-		b, ok := in.(*ssa.BinOp)
-		if !ok || (b.Op != token.LSS && b.Op != token.GTR && b.Op != token.LEQ && b.Op != token.GEQ && b.Op != token.EQL && b.Op != token.NEQ) {
-			return
-		}
-		if bt, isB := b.X.Type().Underlying().(*types.Basic); !isB || bt.Info()&types.IsString == 0 {
-			return
-		}
-		px, kx, ok1 := refProjection(lk, b.X)
-		py, ky, ok2 := refProjection(lk, b.Y)
-		if !ok1 || !ok2 {
-			bad = "a comparison whose operands are not projections of the two entries"
-			return
-		}
-		cmps = append(cmps, cmp{b.Op, px, py, kx, ky, b})
-	})
+	// decision table: for the 3×3 orderings of (index key, primary key) of the two entries the comparator must answer
+	// "x before y" exactly when the index key is smaller, or equal with a smaller primary key
 	construct := "core.index.lessKey:lexicographic"
-	if bad != "" || len(cmps) < 2 {
-		e.undecided("R1", construct, e.pos(lk.Pos()), "comparator shape not recognised (%s, %d comparisons)", bad, len(cmps))
-	} else {
-		var probs []string
-		for _, c := range cmps {
-			if c.kx != c.ky {
-				probs = append(probs, fmt.Sprintf("a comparison mixes projection [%d] of one entry with [%d] of the other", c.kx, c.ky))
-			}
-			if c.px == c.py {
-				probs = append(probs, "a comparison compares an entry with itself")
-			}
-		}
-		// primary comparisons on [1] (index key): must decide both < and >; last comparison on [0] (primary key) with <
-		first, last := cmps[0], cmps[len(cmps)-1]
-		if first.kx != 1 {
-			probs = append(probs, fmt.Sprintf("the first comparison is on projection [%d], not on the index key [1]", first.kx))
-		}
-		if last.kx != 0 {
-			probs = append(probs, "there is no tie-break on the primary key [0]: entries with equal index keys have no defined order, so lock-step consumption with sortedKeys and pagination inside a run of equal keys break")
-		}
-		hasLess, hasGreater := false, false
-		for _, c := range cmps {
-			if c.kx == 1 {
-				norm := c.op
-				if c.px > c.py { // operands swapped
-					norm = flipOp(norm)
+	var probs []string
+	ncmp := 0
+	for _, o1 := range []int{-1, 0, 1} { // ordering of the index keys [1]
+		for _, o0 := range []int{-1, 0, 1} { // ordering of the primary keys [0]
+			unknown := ""
+			ret, evalAt, ok := interpBool(lk, func(v ssa.Value) (bool, bool) {
+				b, isB := v.(*ssa.BinOp)
+				if !isB || !isStringType(b.X.Type()) {
+					return false, false
 				}
-				if norm == token.LSS {
-					hasLess = true
+				px, kx, ok1 := refProjection(lk, b.X)
+				py, ky, ok2 := refProjection(lk, b.Y)
+				if !ok1 || !ok2 {
+					unknown = "a comparison whose operands are not projections of the two entries"
+					return false, false
 				}
-				if norm == token.GTR {
-					hasGreater = true
+				if kx != ky {
+					unknown = fmt.Sprintf("a comparison mixes projection [%d] of one entry with [%d] of the other", kx, ky)
+					return false, false
 				}
+				ncmp++
+				ord := o0
+				if kx == 1 {
+					ord = o1
+				}
+				switch {
+				case px == py:
+					ord = 0
+				case px > py:
+					ord = -ord
+				}
+				return cmpHolds(b.Op, ord)
+			})
+			want := o1 < 0 || (o1 == 0 && o0 < 0)
+			got, decided := false, false
+			if ok {
+				got, decided = evalAt(retVals(ret)[0])
 			}
-		}
-		if !hasLess || !hasGreater {
-			probs = append(probs, "the index-key comparison does not decide both the smaller and the greater case before falling to the tie-break")
-		}
-		// result constants: x<y on [1] → true ; x>y → false ; final → x<y on [0]
-		for _, c := range cmps {
-			if c.kx != 1 {
-				continue
+			switch {
+			case unknown != "":
+				probs = append(probs, unknown)
+			case !decided:
+				probs = append(probs, "the comparator could not be evaluated for one of the nine orderings")
+			case got != want:
+				probs = append(probs, fmt.Sprintf("for index keys %s and primary keys %s the comparator answers %v (entries must be ordered by index key, ties broken by primary key, or lock-step consumption with sortedKeys and pagination inside a run of equal keys break)", ordStr(o1), ordStr(o0), got))
 			}
-			for _, r := range refsOf(c.in) {
-				ifi, ok := r.(*ssa.If)
-				if !ok {
-					continue
-				}
-				tb := ifi.Block().Succs[0]
-				if ret, ok := tb.Instrs[len(tb.Instrs)-1].(*ssa.Return); ok {
-					v, isK := constBool(retVals(ret)[0])
-					norm := c.op
-					if c.px > c.py {
-						norm = flipOp(norm)
-					}
-					if isK && ((norm == token.LSS && !v) || (norm == token.GTR && v)) {
-						probs = append(probs, "the result returned for the decided index-key comparison is inverted")
-					}
-				}
-			}
-		}
-		if len(probs) > 0 {
-			e.fail("R1", construct, e.pos(lk.Pos()), "%s", strings.Join(probs, "; "))
-		} else {
-			e.pass("R1", construct, e.pos(lk.Pos()), "%d comparisons: index key [1] decides < and >, ties broken by primary key [0], same projection on both sides", len(cmps))
 		}
 	}
-	// the closure handed to sort.Slice: returns less under the direction flag, !less otherwise
+	if len(probs) > 0 {
+		sort.Strings(probs)
+		e.fail("R1", construct, e.pos(lk.Pos()), "%s", probs[0])
+	} else {
+		e.pass("R1", construct, e.pos(lk.Pos()), "decision table over the 9 orderings of (index key, primary key): lexicographic in every case (%d comparisons evaluated)", ncmp)
+	}
+	// the closure handed to sort.Slice: lessKey(x,y) under the direction flag, its negation otherwise
 	var clo *ssa.Function
 	for _, a := range ss.AnonFuncs {
 		clo = a
@@ -248,48 +221,44 @@ func c02R1(e *Engine) {
 		e.undecided("R1", construct, e.pos(ss.Pos()), "no comparator closure found in startSearch")
 		return
 	}
-	var lessCall *ssa.Call
-	instrs(clo, func(in ssa.Instruction) {
-		if c, ok := in.(*ssa.Call); ok && c.Call.StaticCallee() == lk {
-			lessCall = c
+	usesLess := false
+	okDir, why := true, ""
+	for _, fwd := range []bool{true, false} {
+		for _, less := range []bool{true, false} {
+			ret, evalAt, ok := interpBool(clo, func(v ssa.Value) (bool, bool) {
+				switch x := v.(type) {
+				case *ssa.Call:
+					if x.Call.StaticCallee() == lk && len(x.Call.Args) == 3 && x.Call.Args[1] == ssa.Value(clo.Params[0]) && x.Call.Args[2] == ssa.Value(clo.Params[1]) {
+						usesLess = true
+						return less, true
+					}
+				case *ssa.UnOp:
+					if _, isFV := x.X.(*ssa.FreeVar); isFV && x.Op == token.MUL && isBoolType(x.Type()) {
+						return fwd, true
+					}
+				case *ssa.FreeVar:
+					if isBoolType(x.Type()) {
+						return fwd, true
+					}
+				}
+				return false, false
+			})
+			got, decided := false, false
+			if ok {
+				got, decided = evalAt(retVals(ret)[0])
+			}
+			if !decided {
+				okDir, why = false, "(the comparator could not be evaluated from the direction flag and lessKey(x,y))"
+			} else if got != (less == fwd) {
+				okDir, why = false, fmt.Sprintf("(forward=%v, lessKey=%v gives %v)", fwd, less, got)
+			}
 		}
-	})
-	if lessCall == nil {
-		e.fail("R1", construct, e.pos(clo.Pos()), "the sort comparator does not use lessKey")
+	}
+	if !usesLess {
+		e.fail("R1", construct, e.pos(clo.Pos()), "the sort comparator does not use lessKey(x, y)")
 		return
 	}
-	argsOK := len(lessCall.Call.Args) == 3 && lessCall.Call.Args[1] == ssa.Value(clo.Params[0]) && lessCall.Call.Args[2] == ssa.Value(clo.Params[1])
-	okDir := true
-	nret := 0
-	for _, r := range returnsOf(clo) {
-		nret++
-		v := retVals(r)[0]
-		neg := false
-		if u, ok := v.(*ssa.UnOp); ok && u.Op == token.NOT {
-			v, neg = u.X, true
-		}
-		if v != ssa.Value(lessCall) {
-			okDir = false
-			continue
-		}
-		// governed by the direction flag (a free variable of bool type)
-		fwd, known := false, false
-		for _, cd := range condsAt(r.Block()) {
-			cd = normCond(cd)
-			if u, ok := cd.V.(*ssa.UnOp); ok {
-				if _, isFV := u.X.(*ssa.FreeVar); isFV {
-					fwd, known = cd.Val, true
-				}
-			}
-			if _, isFV := cd.V.(*ssa.FreeVar); isFV {
-				fwd, known = cd.Val, true
-			}
-		}
-		if !known || fwd == neg {
-			okDir = false
-		}
-	}
-	e.check(argsOK && okDir && nret == 2, "R1", construct, e.pos(clo.Pos()), "sort comparator = lessKey(x,y) when scanning forward, its negation when scanning backward (args in order:%v)", argsOK)
+	e.check(okDir, "R1", construct, e.pos(clo.Pos()), "sort comparator = lessKey(x,y) when scanning forward, its negation when scanning backward %s", why)
 	// sort.Slice is applied to sortedRefs
 	sorted := false
 	instrs(ss, func(in ssa.Instruction) {
@@ -368,31 +337,71 @@ func c02R2(e *Engine) {
 	if dec == nil {
 		return
 	}
+	// what the verdict (third result) depends on: branch conditions governing the returns and the phis, and the
+	// operands of the boolean expression itself
 	usesStarted, usesMatch := false, false
-	instrs(dec, func(in ssa.Instruction) {
-		ifi, ok := in.(*ssa.If)
-		if !ok {
-			return
-		}
-		cd := normCond(Cond{ifi.Cond, true})
-		if f, _ := loadedFieldDeep(cd.V); f != nil && f.Name() == "started" {
+	atom := func(v ssa.Value) {
+		if f, _ := loadedFieldDeep(v); f != nil && f.Name() == "started" {
 			usesStarted = true
 		}
-		if ex, ok := cd.V.(*ssa.Extract); ok {
+		if ex, ok := v.(*ssa.Extract); ok {
 			if c, isC := ex.Tuple.(*ssa.Call); isC && c.Call.Signature().Results().Len() == 2 && ex.Index == 1 {
 				usesMatch = true
 			}
 		}
-	})
-	// both truth values are returned
+	}
+	seenDep := map[ssa.Value]bool{}
+	var deps func(v ssa.Value)
+	deps = func(v ssa.Value) {
+		if v == nil || seenDep[v] {
+			return
+		}
+		seenDep[v] = true
+		switch x := v.(type) {
+		case *ssa.UnOp:
+			if x.Op == token.NOT {
+				deps(x.X)
+				return
+			}
+		case *ssa.BinOp:
+			if x.Op == token.EQL || x.Op == token.NEQ || x.Op == token.AND || x.Op == token.OR {
+				deps(x.X)
+				deps(x.Y)
+			}
+		case *ssa.Phi:
+			for i, ed := range x.Edges {
+				deps(ed)
+				for _, cd := range edgeFacts(x.Block().Preds[i], x.Block()) {
+					deps(cd.V)
+				}
+			}
+			return
+		}
+		atom(v)
+	}
 	hasT, hasF := false, false
+	if len(returnsOf(dec)) > 1 {
+		// several returns: which one is taken is decided by the function's branches
+		instrs(dec, func(in ssa.Instruction) {
+			if ifi, ok := in.(*ssa.If); ok {
+				deps(ifi.Cond)
+			}
+		})
+	}
 	for _, r := range returnsOf(dec) {
-		if v, ok := constBool(retVals(r)[2]); ok {
+		rv := retVals(r)
+		if len(rv) < 3 {
+			continue
+		}
+		deps(rv[2])
+		if v, ok := constBool(rv[2]); ok {
 			if v {
 				hasT = true
 			} else {
 				hasF = true
 			}
+		} else {
+			hasT, hasF = true, true // computed: not a constant verdict
 		}
 	}
 	e.check(usesStarted && usesMatch && hasT && hasF, "R2", e.fname(dec)+":verdict-uses-started-and-match", e.pos(dec.Pos()), "the per-item verdict is decided from the match result (%v) and the start-position flag (%v)", usesMatch, usesStarted)
@@ -611,7 +620,7 @@ func c02R5(e *Engine) {
 			e.check(def, "R5", construct+"ScanIndexForward:default", e.pos(s.fn.Pos()), "an absent ScanIndexForward defaults to true (ascending), as in DynamoDB")
 		}
 	}
-	e.minCount("R5", 30)
+	e.minCount("R5", 20)
 }
 
 func c02R6(e *Engine) {
@@ -738,4 +747,19 @@ func c02R8(e *Engine) {
 	} else {
 		e.pass("R8", construct, e.ipos(step), "the loop over the key list is left only when the list is exhausted or the page limit derived from QueryInput.Limit is reached")
 	}
+}
+
+func ordStr(o int) string {
+	switch {
+	case o < 0:
+		return "x<y"
+	case o > 0:
+		return "x>y"
+	}
+	return "x=y"
+}
+
+func isBoolType(t types.Type) bool {
+	b, ok := t.Underlying().(*types.Basic)
+	return ok && b.Kind() == types.Bool
 }
